@@ -8,8 +8,11 @@ import (
 	"fmt"
 	"net"
 	"os"
+	"os/exec"
 	"path/filepath"
+	"strconv"
 	"sync"
+	"syscall"
 	"time"
 
 	"github.com/netflix/rend/handlers"
@@ -39,6 +42,11 @@ func (c Config) String() string {
 }
 
 type Stack struct {
+	// MainAddr/BatchAddr: when set, Dial connects there over TCP (an external
+	// memproxy process) instead of the in-process unix sockets.
+	MainAddr, BatchAddr string
+	Proc                *exec.Cmd
+
 	Cfg       Config
 	L1, L2    *fakemc.Server
 	L1Sock    string
@@ -200,6 +208,17 @@ func (s *Stack) Dial(port int) net.Conn {
 		}
 		p = s.BatchSock
 	}
+	if s.MainAddr != "" {
+		addr := s.MainAddr
+		if port == 1 {
+			addr = s.BatchAddr
+		}
+		c, err := net.DialTimeout("tcp", addr, 5*time.Second)
+		if err != nil {
+			panic(fmt.Sprintf("dial %s: %v", addr, err))
+		}
+		return c
+	}
 	var err error
 	for i := 0; i < 50; i++ {
 		var c net.Conn
@@ -229,3 +248,89 @@ func (s *Stack) Auth() *fakemc.Server {
 	}
 	return s.L1
 }
+
+func freePort() int {
+	l, err := net.Listen("tcp", "127.0.0.1:0")
+	if err != nil {
+		panic(err)
+	}
+	defer l.Close()
+	return l.Addr().(*net.TCPAddr).Port
+}
+
+// External starts the real memproxy binary (built from app/memproxy.go) in
+// front of fresh fakes, configured through its command line flags like a
+// deployment would, and returns a Stack that dials its TCP ports.
+// cfg.L2 must be "-" or "std" (memproxy always uses the std handler for L2).
+func External(cfg Config, binary string) (*Stack, error) {
+	s := &Stack{Cfg: cfg}
+	s.L1, s.L1Sock = NewFake("xl1_")
+	args := []string{"--l1-sock", s.L1Sock}
+	switch cfg.L1 {
+	case "chunked":
+		args = append(args, "--chunked")
+	case "batched":
+		args = append(args, "--l1-batched", "--batch-size", "4", "--batch-delay", "100")
+	}
+	if cfg.L2 != "-" {
+		s.L2, s.L2Sock = NewFake("xl2_")
+		args = append(args, "--l2-enabled", "--l2-sock", s.L2Sock)
+	}
+	switch cfg.Lock {
+	case "lock1r":
+		args = append(args, "--locked", "--multi-reader=false", "--concurrency", strconv.Itoa(int(cfg.Conc)))
+	case "lockNr":
+		args = append(args, "--locked", "--multi-reader=true", "--concurrency", strconv.Itoa(int(cfg.Conc)))
+	}
+	mp, bp := freePort(), freePort()
+	args = append(args, "-p", strconv.Itoa(mp), "-bp", strconv.Itoa(bp))
+	s.MainAddr, s.BatchAddr = fmt.Sprintf("127.0.0.1:%d", mp), fmt.Sprintf("127.0.0.1:%d", bp)
+	cmd := exec.Command(binary, args...)
+	cmd.Stdout, cmd.Stderr = nil, nil
+	if err := cmd.Start(); err != nil {
+		return nil, err
+	}
+	s.Proc = cmd
+	deadline := time.Now().Add(20 * time.Second)
+	for {
+		c, err := net.DialTimeout("tcp", s.MainAddr, time.Second)
+		if err == nil {
+			c.Close()
+			break
+		}
+		if time.Now().After(deadline) {
+			cmd.Process.Kill()
+			return nil, fmt.Errorf("memproxy did not start listening on %s: %v", s.MainAddr, err)
+		}
+		time.Sleep(20 * time.Millisecond)
+	}
+	if cfg.Shape == "l1l2+batch" {
+		for i := 0; i < 500; i++ {
+			c, err := net.DialTimeout("tcp", s.BatchAddr, time.Second)
+			if err == nil {
+				c.Close()
+				break
+			}
+			time.Sleep(20 * time.Millisecond)
+		}
+	}
+	return s, nil
+}
+
+// Stop kills an external memproxy.
+func (s *Stack) Stop() {
+	if s.Proc != nil {
+		s.Proc.Process.Kill()
+		s.Proc.Wait()
+	}
+}
+
+// Alive reports whether the external process is still running.
+func (s *Stack) Alive() bool {
+	if s.Proc == nil {
+		return true
+	}
+	return s.Proc.ProcessState == nil && s.Proc.Process.Signal(syscall0()) == nil
+}
+
+func syscall0() os.Signal { return syscall.Signal(0) }
